@@ -166,8 +166,15 @@ def h_write_input(ctx, program="gaussian", natom=2, tname="default", chg="set", 
         if tname == "t3":
             user["myfield"] = "hello"
             user["lot"] = "MP2"         # keyword argument overrides the object's / default value
-        if tname == "t1" and ctx.choice([False, True], label="override_charge"):
-            user["charge"] = 7
+        if (tname == "t1" or (tname == "default" and chg == "set" and natom == 2 and not custom_atom_line)) and not wide:
+            # keyword arguments take precedence over what is derived from the object, field by field
+            ov = ctx.choice(["none", "charge", "spinmult", "title"], label="user-override")
+            if ov == "charge":
+                user["charge"] = 7
+            elif ov == "spinmult":
+                user["spinmult"] = 6
+            elif ov == "title":
+                user["title"] = "title given as keyword"
 
         def my_atom_line(d, i):
             return f"ATOM{i} {d.atnums[i]} {d.atcoords[i, 0]:12.8f}"
@@ -230,7 +237,9 @@ def h_write_input(ctx, program="gaussian", natom=2, tname="default", chg="set", 
                            cls=f"{cls},charge={chg}")
         if "mult" in parsed:
             got = _num(parsed["mult"], "int", ctx)
-            if exp_spinpol is None:
+            if "spinmult" in user:
+                ctx.oblige("user-field-overrides-multiplicity", got == 6, cls=cls)
+            elif exp_spinpol is None:
                 ctx.oblige("multiplicity-defaults-to-1", got == 1, cls=cls)
             else:
                 a = sym_abs(exp_spinpol) if ctx.mode == "sym" else abs(exp_spinpol)
@@ -244,7 +253,7 @@ def h_write_input(ctx, program="gaussian", natom=2, tname="default", chg="set", 
         if "run_type" in parsed:
             ctx.oblige("run-type-keyword", parsed["run_type"] == keywords[rt_key], cls=cls)
         if "title" in parsed:
-            ctx.oblige("title", parsed["title"] == (title or "Input Generated by IOData"), cls=cls)
+            ctx.oblige("title", parsed["title"] == user.get("title", title or "Input Generated by IOData"), cls=cls)
         if "myfield" in parsed:
             ctx.oblige("extra-keyword-field", parsed["myfield"] == "hello", cls=cls)
 
